@@ -14,6 +14,7 @@ pub mod jsondoc;
 pub mod tok;
 pub mod intro;
 pub mod devauth;
+pub mod rt;
 
 pub fn dispatch(op: &str, cfg: &RunCfg, d: &mut Driver) -> Option<OpResult> {
     Some(match op {
@@ -32,6 +33,7 @@ pub fn dispatch(op: &str, cfg: &RunCfg, d: &mut Driver) -> Option<OpResult> {
         "err" => run_op::<err::ErrCase>(cfg, d),
         "intro" => run_op::<intro::IntroCase>(cfg, d),
         "devauth" => run_op::<devauth::DevCase>(cfg, d),
+        "rt" => run_op::<rt::RtCase>(cfg, d),
         _ => return None,
     })
 }
